@@ -98,10 +98,7 @@ fn c01_match(text: &str, o: &Opt, lines: &[LineOut], check_trailing_space: bool)
             }
             let mut start = pos;
             loop {
-                if !gap_ok(&text[pos..start], o.ending()) {
-                    break;
-                }
-                if text[start..].starts_with(slice) && (l.start.is_none() || l.start == Some(start) || slice.is_empty()) {
+                if gap_ok(&text[pos..start], o.ending()) && text[start..].starts_with(slice) && (l.start.is_none() || l.start == Some(start) || slice.is_empty()) {
                     if go(text, o, lines, k + 1, start + slice.len(), cts, depth) {
                         return true;
                     }
@@ -135,7 +132,9 @@ pub fn c01_oracle(ctx: &mut Ctx, name: &str, t: &str, o: &Opt, lines: &Option<Ve
             if !valid_points {
                 return;
             }
-            let cts = o.sep == 'a' || !o.bw;
+            // trailing-space clause: a custom splitter may itself cut right after a space inside a
+            // Unicode-separator word (DESIGN §9(k)); that is the splitter's choice, not a loss
+            let cts = o.sep == 'a' || (!o.bw && matches!(o.splitter, "n" | "h"));
             match c01_match(t, o, ls, cts) {
                 Ok(()) => ctx.oracle_ok(),
                 Err(e) => ctx.fail("lines are in-order slices of the input", format!("{} = {:?}: {}", call(name, t, o), ls.iter().map(|l| (&l.s, l.borrowed, l.start)).collect::<Vec<_>>(), e), None),
@@ -987,7 +986,7 @@ pub fn c20(ctx: &mut Ctx) {
             continue;
         }
         let fits = wl.iter().all(|x| dw(x) <= cw);
-        if fits && wellformed(&t) {
+        if fits && wl.iter().all(|x| wellformed(x)) && wellformed(l) && wellformed(m) && wellformed(r) {
             let want = dw(l) + dw(r) + (cols - 1) * dw(m) + cols * cw + inner % cw;
             if rows.iter().any(|x| dw(x) != want) {
                 ctx.fail("all rows have the same display width when every line fits", format!("{} = {:?}, expected width {}", d, rows, want), None);
